@@ -125,7 +125,13 @@ MALFORMED_EDITS = [
     lambda s: s + ' ', lambda s: '5' + s if False else s + '!', lambda s: s.replace('/', '//', 1) if '/' in s else s + '/',
     lambda s: s.rsplit('.', 1)[0] if '.' in s.rsplit(',', 1)[-1] else s + ',M3', lambda s: s + ',M11.1.0,M3.2.0', lambda s: s.replace(',', ',#', 1),
 ]
-MALFORMED_FIXED = [',', 'EST5EDT,', 'EST5EDT,M3.2.0', 'EST5EDT,M3', 'EST5EDT,M3.2', 'EST5EDT,M3.2.0,', 'EST5EDT,M3.2.0,M11', 'EST5EDT,J,J',
+MALFORMED_FIXED = [
+                   # rule times that are digit runs of a width no form has (h, hh, hhmm are the only ones), for every rule kind
+                   'EST5EDT,M3.2.0/200,M11.1.0', 'EST5EDT,M3.2.0/2,M11.1.0/12345', 'AEST-10AEDT,J280/2,J95/030000', 'EST5EDT,60/020,300', 'EST5EDT,M3.2.0/2,M11.1.0/0200000',
+                   # rule fields written with decimal digits that are not ASCII
+                   u'EST5EDT,M\u0663.2.0,M11.1.0', u'EST5EDT,M3.\uff12.0/2,M11.1.0/2', u'AEST-10AEDT,J\u0662\u0668\u0660,J95', u'EST5EDT,M3.2.0/\u0662,M11.1.0',
+                   u'EST5EDT,M3.2.\u0660,M11.1.0', u'EST5EDT,\u0666\u0660,300',
+                   ',', 'EST5EDT,', 'EST5EDT,M3.2.0', 'EST5EDT,M3', 'EST5EDT,M3.2', 'EST5EDT,M3.2.0,', 'EST5EDT,M3.2.0,M11', 'EST5EDT,J,J',
                    'EST5EDT,M3.2.0/2,M11.1.0/2,M1.1.1', 'EST5EDT,3,4,5', 'EST5EDT,Mx.y.z,M11.1.0', '5EST', '5', ':5', 'EST5EDT,M3.2.0/2;M11.1.0/2x',
                    'EST5EDT,M3.2.0/2,M11.1.0/2 trailing', 'EST5EDT4,M3.2.0/,M11.1.0', 'EST+', 'EST5EDT,M3.2.0/2,M11.1.0/2,',
                    # the comma-separated numeric form with a field missing / in surplus
